@@ -446,8 +446,8 @@ impl H {
                     2 => w.add_targeted_event::<T2>(),
                     3 => w.add_targeted_event::<T3>(),
                     10 => w.add_targeted_event::<Despawn>(),
-                    20..=25 => with_comp!(tg - 20, C => w.add_targeted_event::<Insert<C>>()),
-                    40..=45 => with_comp!(tg - 40, C => w.add_targeted_event::<Remove<C>>()),
+                    20..=29 => with_comp!(tg - 20, C => w.add_targeted_event::<Insert<C>>()),
+                    40..=49 => with_comp!(tg - 40, C => w.add_targeted_event::<Remove<C>>()),
                     _ => panic!("harness: bad targeted tag"),
                 }) {
                     Ok(id) => {
@@ -602,8 +602,9 @@ impl H {
                 }
             }
             println!(
-                "M {} {} {} {} {} {} {}",
-                seid(e), cell::<K0>(w, e), cell::<K1>(w, e), cell::<K2>(w, e), cell::<K3>(w, e), cell::<K4>(w, e), cell::<K5>(w, e)
+                "M {} {} {} {} {} {} {} {} {} {} {}",
+                seid(e), cell::<K0>(w, e), cell::<K1>(w, e), cell::<K2>(w, e), cell::<K3>(w, e), cell::<K4>(w, e), cell::<K5>(w, e),
+                cell::<K6>(w, e), cell::<K7>(w, e), cell::<K8>(w, e), cell::<K9>(w, e)
             );
         }
         let bits = |v: Vec<bool>| v.into_iter().map(|b| if b { '1' } else { '0' }).collect::<String>();
